@@ -43,6 +43,12 @@ pub struct FaultCounts {
     pub log_level: u64,
     #[serde(default)]
     pub address_space: u64,
+    /// calls that ran the real command-line binary as a process of its own
+    #[serde(default)]
+    pub cli_process: u64,
+    /// ... of which with a permuted directory enumeration order (readdir seam)
+    #[serde(default)]
+    pub cli_readdir_permuted: u64,
 }
 
 impl FaultCounts {
@@ -61,6 +67,8 @@ impl FaultCounts {
         self.clock += o.clock;
         self.log_level += o.log_level;
         self.address_space += o.address_space;
+        self.cli_process += o.cli_process;
+        self.cli_readdir_permuted += o.cli_readdir_permuted;
     }
     pub fn any(&self) -> bool {
         self.hash_reseed
@@ -238,6 +246,13 @@ fn plan_faults(plan: &Plan, out: &Outcome, refs: &mut RefTable) -> (FaultCounts,
                 let ident = order.iter().enumerate().all(|(i, o)| i == *o);
                 if !ident || *via_hashmap || !dups.is_empty() || *via_insert || *sibling_first {
                     f.enum_permute += 1;
+                }
+            }
+            Op::Cli { readdir_seed, .. } => {
+                f.cli_process += 1;
+                if *readdir_seed != 0 {
+                    f.enum_permute += 1;
+                    f.cli_readdir_permuted += 1;
                 }
             }
             _ => {}
